@@ -11,6 +11,7 @@ Decides (DESIGN.md §3 C19):
 Not decided: wall time and allocation (range(N) loops with file-controlled N are bounded by N, not by the file size).
 """
 import ast
+from sa.canon import U
 from sa.world import get_world
 from sa import expr, paths, streams, dispatch, walks, hrules, wrap
 from sa.model import walk_no_nested
@@ -131,7 +132,7 @@ def check_raises(ctx, w, graph):
                        msg='the constructor can fail with an exception that is not an ELFError', sample='%s raises %s (ELFError subclass)' % (f.construct, cname))
             elif isinstance(n, ast.Assert):
                 n_assert += 1
-                t = ast.unparse(n.test)
+                t = U(n.test)
                 k = (f.mod, f.qual, t)
                 if k in ASSERT_EXC:
                     ok = _elfclass_witness(w)
@@ -142,20 +143,20 @@ def check_raises(ctx, w, graph):
     # helpers raising with a caller-supplied type: elf_assert -> ELFError, dwarf_assert -> DWARFError
     for q, exc in (('elf_assert', 'ELFError'), ('dwarf_assert', 'DWARFError')):
         f = w.model.func('common/utils.py', q)
-        ok = [ast.unparse(s) for s in f.node.body if not (isinstance(s, ast.Expr) and isinstance(s.value, ast.Constant))] == ['_assert_with_exception(cond, msg, %s)' % exc]
+        ok = [U(s) for s in f.node.body if not (isinstance(s, ast.Expr) and isinstance(s.value, ast.Constant))] == ['_assert_with_exception(cond, msg, %s)' % exc]
         ctx.ob('K-RAISE', f.construct, 'raises ' + exc, ok and (exc != 'ELFError' or _is_elferror(w, exc)))
     f = w.model.func('common/utils.py', '_assert_with_exception')
     ctx.ob('K-RAISE', f.construct, 'raises the given type iff the condition is false',
-           [ast.unparse(s) for s in f.node.body] == ['if not cond:\n    raise exception_type(msg)'])
+           [U(s) for s in f.node.body] == ['if not cond:\n    raise exception_type(msg)'])
     for cn in ('ELFParseError', 'ELFRelocationError', 'ELFCompressionError'):
         ctx.ob('K-RAISE', 'common/exceptions.py:' + cn, 'subclass of ELFError', _is_elferror(w, cn))
 
 
 def _elfclass_witness(w):
     f = w.model.func(EF, 'ELFFile._identify_file')
-    vals = [ast.unparse(s.value) for s in ast.walk(f.node) if isinstance(s, ast.Assign) and ast.unparse(s.targets[0]) == 'self.elfclass']
+    vals = [U(s.value) for s in ast.walk(f.node) if isinstance(s, ast.Assign) and U(s.targets[0]) == 'self.elfclass']
     init = w.model.func(EF, 'ELFFile.__init__')
-    src = ast.unparse(init.node)
+    src = U(init.node)
     return sorted(vals) == ['32', '64'] and src.index('self._identify_file()') < src.index('ELFStructs(') and \
         'elfclass=self.elfclass' in src
 
@@ -186,10 +187,10 @@ def check_wrap(ctx, w, graph):
                 protected = False
                 for t in ast.walk(g.node):
                     if isinstance(t, ast.Try) and paths.contains_node(ast.Module(body=t.body, type_ignores=[]), c) and \
-                            any('ConstructError' in ast.unparse(h.type) and 'ELFParseError' in ast.unparse(h) for h in t.handlers if h.type is not None):
+                            any('ConstructError' in U(h.type) and 'ELFParseError' in U(h) for h in t.handlers if h.type is not None):
                         protected = True
                 n += 1
-                ctx.ob('K-WRAP', g.construct, 'construct parse %s wrapped' % ast.unparse(c.func)[:40], protected, line=c.lineno,
+                ctx.ob('K-WRAP', g.construct, 'construct parse %s wrapped' % U(c.func)[:40], protected, line=c.lineno,
                        msg='a construct parse outside struct_parse lets ConstructError escape the constructor')
     ctx.analysed['unwrapped_parse_sites_on_ctor_graph'] = n
     if n == 0:
@@ -282,14 +283,14 @@ def check_seek(ctx, w, graph):
                     any(isinstance(x, ast.Call) for x in ast.walk(a))
                 n += 1
                 if not tainted:
-                    ctx.ob('K-SEEK', f.construct, 'seek(%s) constant' % ast.unparse(a)[:30], True)
+                    ctx.ob('K-SEEK', f.construct, 'seek(%s) constant' % U(a)[:30], True)
                     continue
                 guarded = False
                 for p in paths.paths_reaching(f.node, c):
                     for t, pol in p.conds():
-                        if 'stream_len' in ast.unparse(t):
+                        if 'stream_len' in U(t):
                             guarded = True
-                ctx.ob('K-SEEK', f.construct, 'seek(%s) guarded by the stream length' % ast.unparse(a)[:40], guarded, line=c.lineno,
+                ctx.ob('K-SEEK', f.construct, 'seek(%s) guarded by the stream length' % U(a)[:40], guarded, line=c.lineno,
                        msg='a seek to a position taken from file contents without a bound raises OverflowError/ValueError for huge values')
             elif isinstance(c, ast.Call) and isinstance(c.func, ast.Name) and c.func.id in ('struct_parse', 'parse_cstring_from_stream'):
                 n += 1
@@ -300,11 +301,11 @@ def check_seek(ctx, w, graph):
     h = w.model.func(EF, 'ELFFile._get_section_header')
     henv = expr.FEnv(h.node, params=('n',), inline=False)
     rp = paths.returns_with_conds(h.node)
-    ok = any([(expr.cond_str(t, henv), pol) for t, pol in c] == [(expr.spec_cond('stream_pos > stream_len'), True)] and
+    ok = any([expr.CP(expr.cond_str(t, henv), pol) for t, pol in c] == [expr.CP(expr.spec_cond('stream_pos > stream_len'), True)] and
              (r is None or expr.nfs(r, henv) == 'None') for c, r, p in rp)
     ctx.ob('K-SEEK', h.construct, 'header position beyond the file -> None (no parse)', ok)
     init = w.model.func(EF, 'ELFFile.__init__')
-    src = ast.unparse(init.node)
+    src = U(init.node)
     ctx.ob('K-SEEK', init.construct, 'stream length measured first', 'self.stream.seek(0, io.SEEK_END)\n    self.stream_len = self.stream.tell()' in src.replace('        ', '    '))
 
 
@@ -314,15 +315,15 @@ def check_keys(ctx, w, graph):
         env = expr.FEnv(f.node, inline=False)
         for n in walk_no_nested(f.node):
             if isinstance(n, ast.Subscript) and isinstance(n.ctx, ast.Load) and not isinstance(n.slice, (ast.Constant, ast.Slice)):
-                want = expr.spec_cond('%s in %s' % (ast.unparse(n.slice), ast.unparse(n.value)))
+                want = expr.spec_cond('%s in %s' % (U(n.slice), U(n.value)))
                 ok = True
                 reach = paths.paths_reaching(f.node, n)
                 for p in reach:
-                    if (want, True) not in [(expr.cond_str(t, env), pol) for t, pol in p.conds()]:
+                    if (want, True) not in [expr.CP(expr.cond_str(t, env), pol) for t, pol in p.conds()]:
                         ok = False
-                ctx.ob('K-KEY', f.construct, '%s guarded by a membership test' % ast.unparse(n)[:50], ok and bool(reach), line=n.lineno,
+                ctx.ob('K-KEY', f.construct, '%s guarded by a membership test' % U(n)[:50], ok and bool(reach), line=n.lineno,
                        msg='a lookup keyed by a value parsed from the file raises KeyError/IndexError from the constructor',
-                       sample='%s: %s under `%s in %s`' % (f.construct, ast.unparse(n)[:40], ast.unparse(n.slice), ast.unparse(n.value)))
+                       sample='%s: %s under `%s in %s`' % (f.construct, U(n)[:40], U(n.slice), U(n.value)))
 
 
 UNSIGNED_CTORS = ('Elf_byte', 'Elf_half', 'Elf_word', 'Elf_word64', 'Elf_xword', 'Elf_addr', 'Elf_offset')
@@ -351,7 +352,7 @@ class LB(object):
                 self.assigns.setdefault(st.targets[0].id, []).append(st.value)
         self.w = w
         roundup = w.model.func('common/utils.py', 'roundup')
-        self.roundup_ok = [ast.unparse(s) for s in roundup.node.body if not (isinstance(s, ast.Expr) and isinstance(s.value, ast.Constant))] == \
+        self.roundup_ok = [U(s) for s in roundup.node.body if not (isinstance(s, ast.Expr) and isinstance(s.value, ast.Constant))] == \
             ['return (num - 1 | (1 << bits) - 1) + 1']
 
     def field(self, name):
@@ -400,19 +401,19 @@ def check_loops(ctx, w, graph):
             if isinstance(lp, ast.While):
                 n += 1
                 ok, why = _while_progress(w, f, lp, env)
-                ctx.ob('I-PROG', f.construct, 'while %s' % ast.unparse(lp.test)[:40], ok, got=why, line=lp.lineno,
+                ctx.ob('I-PROG', f.construct, 'while %s' % U(lp.test)[:40], ok, got=why, line=lp.lineno,
                        msg='no progress argument for this loop: a corrupted field may keep it running',
-                       sample='%s: while %s -- %s' % (f.construct, ast.unparse(lp.test)[:30], why))
-            elif isinstance(lp, ast.For) and 'itertools.count()' in ast.unparse(lp.iter):
+                       sample='%s: while %s -- %s' % (f.construct, U(lp.test)[:30], why))
+            elif isinstance(lp, ast.For) and 'itertools.count()' in U(lp.iter):
                 n += 1
                 ok, why = _count_progress(w, f, lp, env)
-                ctx.ob('I-PROG', f.construct, 'for %s in count()' % ast.unparse(lp.target), ok, got=why, line=lp.lineno,
+                ctx.ob('I-PROG', f.construct, 'for %s in count()' % U(lp.target), ok, got=why, line=lp.lineno,
                        msg='an unbounded counting loop must parse at a strictly advancing, bounds-checked position or stop',
                        sample='%s: count() loop -- %s' % (f.construct, why))
             elif isinstance(lp, ast.For):
                 # bounded iteration: range(count) / a generator of the battery / a finite container -- the body must not be
                 # able to restart it (no assignment to the iterated name inside the body)
-                it = ast.unparse(lp.iter)
+                it = U(lp.iter)
                 stored = set(x.id for s in lp.body for x in ast.walk(s) if isinstance(x, ast.Name) and isinstance(x.ctx, ast.Store))
                 names = set(x.id for x in ast.walk(lp.iter) if isinstance(x, ast.Name)) - {'self', 'range', 'enumerate'}
                 ctx.ob('I-PROG', f.construct, 'for over %s: iterable not rebound in the body' % it[:40], not (names & stored), got=sorted(names & stored), line=lp.lineno)
@@ -443,10 +444,10 @@ def _while_progress(w, f, lp, env):
                         if isinstance(x, ast.AugAssign) and isinstance(x.target, ast.Name) and x.target.id == var:
                             b = lb.of(x.value) if isinstance(x.op, ast.Add) else None
                             if b is None:
-                                return False, 'advance %s of %s has no non-negative lower bound' % (ast.unparse(x), var)
+                                return False, 'advance %s of %s has no non-negative lower bound' % (U(x), var)
                             total += b
                         elif isinstance(x, ast.Assign) and any(isinstance(t, ast.Name) and t.id == var for t in x.targets):
-                            return False, 'cursor %s reassigned (%s)' % (var, ast.unparse(x)[:40])
+                            return False, 'cursor %s reassigned (%s)' % (var, U(x)[:40])
                 worst = total if worst is None else min(worst, total)
             if worst is not None and worst >= 1:
                 # the guard's bound comes from the file (it can be 2^64): what ends the loop on a short file is the parse at
@@ -460,7 +461,7 @@ def _while_progress(w, f, lp, env):
     if isinstance(lp.test, ast.Constant) and lp.test.value is True:
         for c in ast.walk(lp):
             if isinstance(c, ast.Call) and isinstance(c.func, ast.Attribute) and c.func.attr == 'seek':
-                return False, 'seek inside a sequential read loop (%s)' % ast.unparse(c)[:40]
+                return False, 'seek inside a sequential read loop (%s)' % U(c)[:40]
         first = lp.body[0]
         reads = [c for c in ast.walk(first) if isinstance(c, ast.Call) and isinstance(c.func, ast.Attribute) and c.func.attr == 'read' and c.args]
         if len(reads) != 1:
@@ -468,20 +469,20 @@ def _while_progress(w, f, lp, env):
         size = reads[0].args[0]
         b = lb.of(size)
         if b is None or b < 1:
-            return False, 'read size %s not proven positive' % ast.unparse(size)
+            return False, 'read size %s not proven positive' % U(size)
         # exit on short read: struct.unpack(fmt, read(K)) raises; or `if len(chunk) < K: break`
         for c in ast.walk(first):
-            if isinstance(c, ast.Call) and ast.unparse(c.func) == 'struct.unpack' and len(c.args) == 2 and c.args[1] is reads[0]:
-                return True, 'reads %s bytes sequentially per iteration; struct.unpack raises on the short read at end of stream' % ast.unparse(size)
+            if isinstance(c, ast.Call) and U(c.func) == 'struct.unpack' and len(c.args) == 2 and c.args[1] is reads[0]:
+                return True, 'reads %s bytes sequentially per iteration; struct.unpack raises on the short read at end of stream' % U(size)
         if isinstance(first, ast.Assign) and isinstance(first.targets[0], ast.Name) and first.value is reads[0]:
             chunk = first.targets[0].id
-            want = expr.spec_cond('len(%s) < %s' % (chunk, ast.unparse(size)))
+            want = expr.spec_cond('len(%s) < %s' % (chunk, U(size)))
             for p in paths.enum_paths(lp.body):
                 if p.end[0] in ('fall', 'continue'):
                     # a path that continues must have established the chunk was full
-                    if (want, False) not in [(expr.cond_str(t, env), pol) for t, pol in p.conds()]:
-                        return False, 'a path continues the loop without having tested len(%s) < %s' % (chunk, ast.unparse(size))
-            return True, 'reads %s bytes sequentially per iteration and leaves the loop on a short read' % ast.unparse(size)
+                    if (want, False) not in [expr.CP(expr.cond_str(t, env), pol) for t, pol in p.conds()]:
+                        return False, 'a path continues the loop without having tested len(%s) < %s' % (chunk, U(size))
+            return True, 'reads %s bytes sequentially per iteration and leaves the loop on a short read' % U(size)
         return False, 'no exit on a short read'
     return False, 'loop shape not recognised (no cursor guard, not a sequential read loop)'
 
@@ -526,7 +527,7 @@ def check_strides(ctx, w):
         raise_conds = []
         ret = None
         for p in paths.func_paths(f.node):
-            cs = [(expr.cond_str(t, env), pol) for t, pol in p.conds()]
+            cs = [expr.CP(expr.cond_str(t, env), pol) for t, pol in p.conds()]
             if p.end[0] == 'raise':
                 raise_conds.append(cs)
             elif p.end[0] == 'return':
@@ -540,8 +541,8 @@ def check_strides(ctx, w):
         genv = expr.FEnv(g.node)
         zero = False
         for conds, r, p in paths.returns_with_conds(g.node):
-            cs = [(expr.cond_str(t, genv), pol) for t, pol in conds]
-            if cs and cs[0] == (expr.spec_cond('%s == 0' % off), True) and isinstance(r, ast.Constant) and r.value == 0:
+            cs = [expr.CP(expr.cond_str(t, genv), pol) for t, pol in conds]
+            if cs and cs[0] == expr.CP(expr.spec_cond('%s == 0' % off), True) and isinstance(r, ast.Constant) and r.value == 0:
                 zero = True
         ctx.ob('I-STRIDE0', g.construct, 'no table (%s == 0) -> count 0' % off, zero or not exempt,
                msg='the entry-size guard is skipped when the table offset is 0; with a non-zero count and entry size 0 the same bytes are '
